@@ -461,6 +461,11 @@ package pipeline
 // moves the input offset) and returning it to the pool for discard and
 // collapse but not for hold; it is reported as passed iff it was not finalized.
 
+// The not-matched skip is taken only by an action that is not busy and for a
+// non-timeout event: an action holding events of the stream (join, ...) sees every
+// next event of that stream, so a non-continuing event flushes the held run before
+// it can overtake it (C02 order, C15 flush rule).
+
 //@ func (*processor).doActions
 //@   option allow-exit yes
 //@   ghost res int = 0
@@ -483,6 +488,7 @@ package pipeline
 //@     preserves processor
 //@     set nfin := nfin + 1
 //@   callee countEvent(e, i, s)
+//@     requires s == eventStatusNotMatched ==> 0 <= i && i < len(p.busyActions) && !p.busyActions[i] && event.kind != EventKindTimeout
 //@     preserves processor
 //@   callee isMatch(i, e)
 //@     preserves processor
